@@ -236,10 +236,29 @@ def node_state(sg):
                 order=[int(i) for i in sg.idx_nodes])
 
 
-def impl_prim(inst):
+def _reconfigure(opf_new, inst, key):
+    """one long-lived object per key, re-configured through its public attributes for this instance"""
+    import opfython.math.distance as dmod
+    if key in _REUSE:
+        old = _REUSE[key]
+        if inst.X is None:
+            old.pre_computed_distance = True
+            old.pre_distances = opf_new.pre_distances
+        else:
+            old.pre_computed_distance = False          # a matrix of an earlier training may stay attached
+            old.distance = inst.metric
+            old.distance_fn = dmod.DISTANCES[inst.metric]
+        return old
+    _REUSE[key] = opf_new
+    return opf_new
+
+
+def impl_prim(inst, reuse=False):
     from opfython.models.supervised import SupervisedOPF
     from opfython.core import Subgraph
     opf, X, I = make_model(inst, SupervisedOPF)
+    if reuse:
+        opf = _reconfigure(opf, inst, "prim")
     n = inst.n
     opf.subgraph = Subgraph(_rows(inst, X, 0, n), np.array(inst.labels), I=None if I is None else I[:n])
     opf._find_prototypes()
